@@ -33,6 +33,7 @@ FailsSel(r) ==
 FailsGreedy(r) ==
     Unless(\A k \in DOMAIN r.pop : r.picks[k] = GreedyPick(r.pop[k], r.new[k]), "C16.greedy_agent")
     \cup Unless(ValidGreedyPop(r.pop, r.new, r.out), "C16.greedy_population")
+    \cup Unless(ValidGreedyPop(r.pop, r.new, r.outp), "C16.greedy_population_pooled")
     \cup Unless(r.untouched, "C16.input_untouched")
 
 FailsExt(r) ==
